@@ -14,7 +14,13 @@ Menu == IOEnv.GEN_MENU
 \* GEN_MENU = "pw": Export (private key, with a password) - Parse: every class x everything that may be offered x every
 \* container, exporting party, entry point and parsing party
 GenPw == IF IOEnv.GEN_PW = "all" THEN PwClasses ELSE {IOEnv.GEN_PW}
+\* GEN_SRC: how the key reaches a signer that works from a key FILE ("all", or one source chosen by the harness from its seed).
+\* GEN_MENU = "src": Sign by a file signer (library signature provider, nxpcrypto signature create) - every parameter set x
+\* EVERY source of the password (file open, password as argument, in the provider configuration, typed at the prompt)
+GenSrc == IF IOEnv.GEN_SRC = "all" THEN PwSources ELSE {"obj", IOEnv.GEN_SRC}
 Allowed == /\ act'.a = "Export" => act'.pwd \in {"none"} \cup GenPw
+           /\ act'.a = "Sign" => act'.src \in GenSrc
+           /\ Menu = "src" /\ Len(hist) = 0 => act'.a = "Sign" /\ act'.by \in FileSigners
            /\ Menu = "pw" => /\ Len(hist) = 0 => act'.a = "Export" /\ act'.pwd # "none"
                              /\ Len(hist) = 1 => act'.a = "Parse"
            /\ Menu = "mid" /\ Len(hist) = 1 => act'.a \in {"Tamper", "Reencode"}
